@@ -1,4 +1,5 @@
 from functools import lru_cache
+from threading import RLock
 
 from tpmstream.spec.common.values import tpm_dataclass
 from tpmstream.spec.structures.base_types import BYTE, UINT16
@@ -10,14 +11,23 @@ class TPM2B_ENCRYPTED_PARAM:
     encryptedParam: list[BYTE]
 
 
+_encrypted_lock = RLock()
+
+
 @tpm_dataclass
 class TPMS_PARAMS:
     _encrypted = False
 
     @classmethod
-    @lru_cache(maxsize=None)
     def encrypted(cls):
         """Returns a modified type where first parameter type is TPM2B_ENCRYPTED_PARAM. Result is cached to enable equality checks on it."""
+        # lru_cache alone may run the function twice when two threads miss at the same time: two types, no equality
+        with _encrypted_lock:
+            return cls._encrypted_type()
+
+    @classmethod
+    @lru_cache(maxsize=None)
+    def _encrypted_type(cls):
         new_type = type(cls.__name__, (), {})
 
         params = cls.__dict__.get("__annotations__", {})
